@@ -63,6 +63,8 @@ func nsAlphabet() []fsx.Op {
 		fsx.Op{K: "SETATTR", H: "root/a", NoSize: true, Mtime: 777},        // mtime alone
 		fsx.Op{K: "SETATTR", H: "root/a", NoSize: true, Perm: 7, STime: 3}, // mode/uid/gid (ignored by the server) and both times to the server's time
 		fsx.Op{K: "SETATTR", H: "root/d", NoSize: true, Atime: 888},        // atime alone, on a directory
+		fsx.Op{K: "SETATTR", H: "root/a", NoSize: true, STime: 2},          // atime alone, to the server's time
+		fsx.Op{K: "SETATTR", H: "root/d", NoSize: true, STime: 1},          // mtime alone, to the server's time, on a directory
 		fsx.Op{K: "SETATTR", H: "root/a", Size: 200, Mtime: 999},           // size and mtime together
 		fsx.Op{K: "RESTART"},
 		fsx.Op{K: "WRITE", H: "dead:root/a", Off: 0, Cnt: 10, Pat: 0x44, Stable: 2},
